@@ -11,8 +11,9 @@ RULE = ("Hypothesis RuleBasedStateMachine: rules construct(family, member) (pool
         "of the same member allowed; families Hill, Shekel, Grishagin, GKLS, Shekel4, Rastrigin, XSquared, "
         "StronginC3) and evaluate(instance, point) with points drawn uniformly in the box, on faces and corners, at "
         "the declared optimum, inside GKLS balls and from previously used points, supplied as a new ndarray or list or (one evaluation in three) through ONE container and Point per instance "
-        "that is overwritten in place between evaluations, the value then being compared with the same point in a "
-        "new array; "
+        "that is overwritten in place between evaluations (optionally with a value holder that still holds an earlier "
+        "value), the value then being compared with the same point in a new array; points within 1e-9 of the side of an "
+        "earlier point are compared with a brand-new instance of the member; a rule adds further instances of a member; "
         "for StronginC3 also the three constraint functions. Oracle: dictionary (family, member, function id, point "
         "bytes) -> first value seen; every later evaluation on any instance of that member must return the "
         "bit-identical value, leave the point unchanged and return the supplied holder with the value stored. "
